@@ -251,6 +251,20 @@ theorem countBefore_spec (dur dt : Int) (hdt : 0 < dt) (i : Nat) :
       rw [Int.le_ediv_iff_mul_le hdt]; linarith
     omega
 
+/-- exactly `n` multiples of `dt` lie before `n·dt` -/
+theorem countBefore_mul (n : Nat) (dt : Int) (hdt : 0 < dt) : countBefore ((n : Int) * dt) dt = n := by
+  apply Nat.le_antisymm
+  · by_contra h
+    have h' : n < countBefore ((n : Int) * dt) dt := by omega
+    have := (countBefore_spec _ dt hdt n).mp h'
+    exact lt_irrefl _ this
+  · by_contra h
+    have h' : countBefore ((n : Int) * dt) dt < n := by omega
+    have hlt : ((countBefore ((n : Int) * dt) dt : Nat) : Int) * dt < (n : Int) * dt :=
+      mul_lt_mul_of_pos_right (by exact_mod_cast h') hdt
+    have := (countBefore_spec _ dt hdt _).mpr hlt
+    exact lt_irrefl _ this
+
 /-- resolution of the specification that `TimeSeries.time` passes on: time objects are stored
 as they are -/
 theorem resolve_tobj {v : Variant} {n : Nat} {t0ps dt : Int} {u : TimeUnit} {r : Resolved}
@@ -596,12 +610,12 @@ theorem same_sampling_core (x F : Rat) (k : Int) (hx : 0 < x) (hF : 0 < F) (hk :
 cast by the `TimeArray` rule and to the rate `Frequency(1.0/x, unit)` -/
 theorem resolve_interval_flt {v : Variant} {s : Spec} {r : Resolved} {x : Rat} {u : TimeUnit}
     (h : resolve v s = .ok r) (hd : s.data = none) (hi : s.interval = some (.num (.flt x)))
-    (hu : s.unit = .ok u) :
+    (hr : s.rate = none) (hu : s.unit = .ok u) :
     x ≠ 0 ∧ r.dt = toPs u (.flt x) ∧ r.rate = frequency (F64.fdiv 1 x) u ∧ r.unit = u ∧
     r.t0 = targPs u (s.t0.getD (.num (.int 0))) := by
   obtain ⟨data, length, duration, rate, interval, t0, unit⟩ := s
-  simp only at hd hi hu
-  subst hd hi hu
+  simp only at hd hi hr hu
+  subst hd hi hr hu
   by_cases hx : x = 0
   · simp [resolve, inherit, checkUnit, inferUnit, deriveIntervalRate, numToF, bind, Except.bind, hx] at h
   · simp only [resolve, inherit, checkUnit, inferUnit, deriveIntervalRate, numToF, bind, Except.bind, hx,
